@@ -180,14 +180,31 @@ impl Sub<f64> for ClockTime {
 			return self.add(-ticks);
 		}
 
-		let fraction = ((self.fraction - ticks).fract() + 1.0) % 1.0;
-		let ticks = self
-			.ticks
-			.saturating_sub((ticks - self.fraction).ceil() as u64);
+		// subtract the whole and the fractional part separately, borrowing one tick
+		// when the fraction would become negative
+		let mut whole = ticks.trunc() as u64;
+		let mut fraction = self.fraction - ticks.fract();
+		if fraction < 0.0 {
+			fraction += 1.0;
+			if fraction >= 1.0 {
+				// the difference rounded up to a whole tick: no borrow
+				fraction = 0.0;
+			} else {
+				whole = whole.saturating_add(1);
+			}
+		}
+		// never go below time zero
+		if whole > self.ticks {
+			return Self {
+				clock: self.clock,
+				ticks: 0,
+				fraction: 0.0,
+			};
+		}
 
 		Self {
 			clock: self.clock,
-			ticks,
+			ticks: self.ticks - whole,
 			fraction,
 		}
 	}
